@@ -110,6 +110,95 @@ def island_cases():
     return out
 
 
+def loop_cases():
+    """Parametric family: a loop nest (outer n, inner m iterations, both from memory, 0 included) around a body whose
+    loop-invariant part must not be moved to where it is executed more often or earlier than in the program: a division guarded by
+    `d != 0`, a load guarded by a flag (null pointer otherwise), an invariant load next to a store that may overlap it, an overflow
+    insn with its branch, an invariant product, all with zero-trip loops among the cases."""
+    R, I, M, ins, br = progs.op_reg, progs.op_imm, progs.op_mem, progs.ins, progs.br
+    A, D, N, ACC, PTR, FLG, I_, J_, MM, T, T2 = 2, 3, 6, 4, 12, 11, 7, 8, 9, 10, 13
+    bodies = {
+        "gdiv": [br("beq", "skip", R(D), I(0)), ins("div", R(T), R(A), R(D)), ins("add", R(ACC), R(ACC), R(T)), "skip"],
+        "div": [ins("div", R(T), R(A), R(D)), ins("add", R(ACC), R(ACC), R(T))],
+        "gmod": [br("beq", "skip", R(D), I(0)), ins("mod", R(T), R(A), R(D)), ins("add", R(ACC), R(ACC), R(T)), "skip"],
+        "gload": [br("beq", "skip", R(FLG), I(0)), ins("mov", R(T), M("i64", 32, PTR)), ins("add", R(ACC), R(ACC), R(T)), "skip"],
+        "ldst_alias": [ins("mov", R(T), M("i64", 32, 1)), ins("add", R(ACC), R(ACC), R(T)), ins("mov", M("i64", 32, 1), R(ACC))],
+        "ldst_part": [ins("mov", R(T), M("i64", 32, 1)), ins("add", R(ACC), R(ACC), R(T)), ins("mov", M("i32", 36, 1), R(ACC))],
+        "ldst_noal": [ins("mov", R(T), M("i64", 32, 1)), ins("add", R(ACC), R(ACC), R(T)), ins("mov", M("i64", 40, 1), R(ACC))],
+        "ldst_idx": [ins("mov", R(T), M("i64", 40, 1)), ins("add", R(ACC), R(ACC), R(T)), ins("mov", M("i64", 32, 1, J_, 8), R(ACC))],
+        "ovf": [ins("addo", R(ACC), R(ACC), R(A)), br("bo", "end")],
+        "mulinv": [ins("mul", R(T), R(A), R(D)), ins("add", R(T2), R(T), R(I_)), ins("xor", R(ACC), R(ACC), R(T2))],
+        "stinv": [ins("mov", M("i64", 48, 1), R(A)), ins("mov", R(T), M("i64", 48, 1)), ins("add", R(ACC), R(ACC), R(T)), ins("mov", M("i64", 48, 1), R(ACC))],
+    }
+    out = []
+    for name, body in sorted(bodies.items()):
+        for n in (0, 1, 3):
+            for m in (0, 1, 2):
+                for a, d in ((1000, 0), (1000, 7), (-(1 << 62), -3), ((1 << 63) - 5, 1)):
+                    for flag in ((0, 1) if name == "gload" else (1,)):
+                        items = [ins("mov", R(A), M("i64", 0, 1)), ins("mov", R(D), M("i64", 8, 1)), ins("mov", R(N), M("i64", 16, 1)),
+                                 ins("mov", R(MM), M("i64", 24, 1)), ins("mov", R(FLG), M("i64", 56, 1)),
+                                 ins("mov", R(PTR), I(0)), br("beq", "nop", R(FLG), I(0)), ins("mov", R(PTR), R(1)), "nop",
+                                 ins("mov", R(ACC), I(0)), ins("mov", R(I_), I(0)),
+                                 "outer", br("bge", "end", R(I_), R(N)), ins("mov", R(J_), I(0)),
+                                 "inner", br("bge", "iend", R(J_), R(MM))] + body + [
+                                 ins("add", R(J_), R(J_), I(1)), {"op": "jmp", "l": "inner"},
+                                 "iend", ins("add", R(I_), R(I_), I(1)), {"op": "jmp", "l": "outer"},
+                                 "end", ins("mov", M("i64", 192, 1), R(ACC)), ins("mov", M("i64", 200, 1), R(I_)), {"op": "ret", "s": [R(ACC)]}]
+                        insns, _ = progs.assemble(items)
+                        w = lambda v: (v & ((1 << 64) - 1)).to_bytes(8, "little")
+                        buf = w(a) + w(d) + w(n) + w(m) + w(5) + w(9) + w(11) + w(flag)
+                        out.append(progs.family_case(insns, 13, buf))
+    return out
+
+
+def memwin_cases(stride, phase=0):
+    """Parametric family: every sequence of three accesses (stores of 2/4/8 bytes, loads of i16/u16/i32/u32/i64) to a 12-byte window at
+    offsets 0/2/4 of the buffer and of an alloca block, the middle access straight-line or in one arm of a diamond; every load result
+    is accumulated.  Forwarding a stored value to a load, removing a store or a load must respect width, sign and overlap.
+    stride/phase pick every stride-th sequence (thorough: all)."""
+    R, I, M, ins, br = progs.op_reg, progs.op_imm, progs.op_mem, progs.ins, progs.br
+    ACC, V, C, P, T = 4, 2, 6, 5, 7
+    sts = [("st", ty, off) for ty in ("i16", "i32", "i64") for off in (0, 2, 4)]
+    lds = [("ld", ty, off) for ty in ("i16", "u16", "i32", "u32", "i64") for off in (0, 2, 4)]
+    acc = sts + lds
+    out, k = [], 0
+    for a1 in acc:
+        for a2 in acc:
+            for a3 in acc:
+                if not any(x[0] == "st" for x in (a1, a2, a3)) or not any(x[0] == "ld" for x in (a2, a3)):
+                    continue
+                for where in ("buf", "alloca"):
+                    for diamond in (0, 1):
+                        k += 1
+                        if k % stride != phase:
+                            continue
+                        base = 1 if where == "buf" else P
+                        boff = 64 if where == "buf" else 0
+
+                        def code(x, n):
+                            if x[0] == "st":      # the stored value changes from access to access
+                                return [ins("add", R(V), R(V), I(0x0101010101010101 * n)), ins("mov", M(x[1], boff + x[2], base), R(V))]
+                            return [ins("mov", R(T), M(x[1], boff + x[2], base)), ins("add", R(ACC), R(ACC), R(T)), ins("lsh", R(ACC), R(ACC), I(1))]
+                        items = [ins("mov", R(V), M("i64", 0, 1)), ins("mov", R(C), M("i64", 16, 1)), ins("mov", R(ACC), I(0))]
+                        if where == "alloca":
+                            items += [ins("alloca", R(P), I(16)), ins("mov", M("i64", 0, P), R(V)), ins("mov", M("i64", 8, P), R(C))]
+                        items += code(a1, 1)
+                        if diamond:
+                            items += [br("bf", "join", R(C))] + code(a2, 2) + ["join"]
+                        else:
+                            items += code(a2, 2)
+                        items += code(a3, 3)
+                        if where == "alloca":
+                            items += [ins("mov", R(T), M("i64", 0, P)), ins("mov", M("i64", 208, 1), R(T)), ins("mov", R(T), M("i64", 8, P)), ins("mov", M("i64", 216, 1), R(T))]
+                        items += [ins("mov", M("i64", 192, 1), R(ACC)), {"op": "ret", "s": [R(ACC)]}]
+                        insns, _ = progs.assemble(items)
+                        w = lambda v: (v & ((1 << 64) - 1)).to_bytes(8, "little")
+                        buf = w(0x8091a2b3c4d5e6f7) + w(0) + w((k // max(stride, 2)) & 1 if stride > 1 else (k >> 2) & 1) + bytes(40) + bytes(range(0x81, 0x91))
+                        out.append(progs.family_case(insns, 8, buf))
+    return out
+
+
 def arith_const_cases(kmax, avals):
     """Parametric family: multiplication, division and remainder by every small constant (strength reduction, magic-number
     division, lea forms), 64- and 32-bit, signed and unsigned, for a few dividends incl. negative ones."""
@@ -145,7 +234,8 @@ def run(tier, cases=None, only_engines=None):
     else:
         ck.setc("states", len(cases)); ck.setc("transitions", len(cases))
     if only_engines is None and tier in ("quick", "thorough") and not os.environ.get("C01_NO_SWEEP") and len(cases) > 100:
-        fam, rf = progs.run_family(sweep_cases(200 if tier == "quick" else 600) + island_cases()
+        fam, rf = progs.run_family(sweep_cases(200 if tier == "quick" else 600) + island_cases() + loop_cases()
+                                   + (memwin_cases(40, vlib.seed() % 40) if tier == "quick" else memwin_cases(4, vlib.seed() % 4))
                                    + arith_const_cases(130 if tier == "quick" else 1100,
                                                        [1000003, -1000003] if tier == "quick" else [1000003, -1000003, 0x7fffffff, -(1 << 63), 0x123456789]))
         cases = cases + fam
